@@ -9,13 +9,19 @@
 //!   begin <zones> <deny> <allow>
 //!   req <u|t> <src> <hex> <body> <edns> <zl>   body/edns/zl are (re)computed here with the real code
 //!   end
-use std::collections::BTreeMap;
+use std::cell::RefCell;
+use std::collections::{BTreeMap, VecDeque};
+use std::future::Future;
+use std::io;
 use std::net::{IpAddr, Ipv4Addr, Ipv6Addr, SocketAddr};
+use std::task::Poll;
 use std::sync::{Arc, Mutex};
 use std::time::{Duration, Instant};
 
 use futures_util::{FutureExt, StreamExt};
-use hickory_net::runtime::Time;
+use hickory_net::runtime::iocompat::AsyncIoTokioAsStd;
+use hickory_net::runtime::{DnsUdpSocket, RuntimeProvider, Spawn, Time, TokioTime};
+use hickory_net::udp::UdpStream;
 use hickory_net::xfer::Protocol;
 use hickory_net::BufDnsStreamHandle;
 use hickory_proto::op::{Edns, Header, Message, MessageRequest, MessageType, OpCode, Queries, Query, ResponseCode};
@@ -25,6 +31,8 @@ use hickory_proto::serialize::binary::{BinDecodable, BinDecoder};
 use hickory_server::dnssec::NxProofKind;
 use hickory_server::server::{verif_handle_request, Request, RequestHandler, RequestInfo, ResponseHandler};
 use hickory_server::store::in_memory::InMemoryZoneHandler;
+use hickory_server::Server;
+use tokio::io::{AsyncReadExt, AsyncWriteExt};
 use hickory_server::zone_handler::{
     AuthLookup, AxfrPolicy, AxfrRecords, Catalog, LookupControlFlow, LookupError, LookupOptions, LookupRecords,
     Nsec3QueryInfo, ZoneHandler, ZoneTransfer, ZoneType,
@@ -287,6 +295,8 @@ struct Cfg {
     /// survival probe: a known-good query and the response it got before any other request
     probe: Vec<u8>,
     baseline: Vec<Vec<u8>>,
+    /// the real `Server` on loopback sockets (started at the first `U`/`T` request of the block)
+    loop_srv: RefCell<Option<LoopSrv>>,
 }
 
 fn parse_lres(s: &str) -> Option<LRes> {
@@ -444,6 +454,15 @@ fn mem_zone(origin: &Name, axfr: bool) -> InMemoryZoneHandler {
     if ns != abs {
         z.upsert_mut(Record::from_rdata(ns, 60, RData::A(A::new(192, 0, 2, 53))), 0);
     }
+    // a zone called big.*: one RRset that does not fit any datagram (≈ 70 kB of TXT)
+    if origin.iter().next().is_some_and(|l| l.eq_ignore_ascii_case(b"big")) {
+        if let Some(h) = sub("huge") {
+            for i in 0..280u32 {
+                let txt = format!("{i:03}{}", "x".repeat(237));
+                z.upsert_mut(Record::from_rdata(h.clone(), 60, RData::TXT(TXT::new(vec![txt]))), 0);
+            }
+        }
+    }
     // a delegation point: names at and below it get a referral (AA clear)
     if let Some(d) = sub("deleg") {
         z.upsert_mut(Record::from_rdata(d, 3600, RData::NS(NS(name("ns.elsewhere.invalid.")))), 0);
@@ -490,7 +509,7 @@ fn build_cfg(zones: Vec<ZSpec>, deny: Vec<IpNet>, allow: Vec<IpNet>) -> Cfg {
     m.metadata.recursion_desired = true;
     m.add_query(Query::new(probe_name, RecordType::A));
     let probe = m.to_vec().expect("probe encodes");
-    Cfg { zones, deny, allow, catalog: Arc::new(catalog), mems, log, probe, baseline: vec![] }
+    Cfg { zones, deny, allow, catalog: Arc::new(catalog), mems, log, probe, baseline: vec![], loop_srv: RefCell::new(None) }
 }
 
 // ------------------------------------------------------------------ running one message
@@ -639,6 +658,276 @@ fn scan_response(r: &[u8]) -> Option<Resp> {
     }
     x.scan_ok = p == r.len();
     Some(x)
+}
+
+
+// ------------------------------------------------------------------ transport under the handler
+
+/// marker sent behind every request on the loop transports: an unknown opcode is answered NOTIMP by
+/// the gate alone (no zone handler is called), so its response delimits the request's responses
+const MARK_ID: u16 = 0xA11F;
+
+fn marker() -> Vec<u8> {
+    let mut m = header(MARK_ID, 0x0F << 3, 0, 0, 0, 0, 0);
+    m[2] &= 0x7F;
+    m
+}
+
+/// the real `Server` (handle_udp / handle_tcp, UdpStream, TcpStream) on loopback sockets
+struct LoopSrv {
+    _server: Server<Shared>,
+    udp_addr: SocketAddr,
+    tcp_addr: SocketAddr,
+    client: tokio::net::UdpSocket,
+    conn: Option<tokio::net::TcpStream>,
+}
+
+async fn start_loop(cfg: &Cfg) -> io::Result<LoopSrv> {
+    let mut server = Server::with_access(Shared(cfg.catalog.clone()), cfg.deny.iter().copied(), cfg.allow.iter().copied());
+    let u = tokio::net::UdpSocket::bind("127.0.0.1:0").await?;
+    let udp_addr = u.local_addr()?;
+    server.register_socket(u);
+    let l = tokio::net::TcpListener::bind("127.0.0.1:0").await?;
+    let tcp_addr = l.local_addr()?;
+    server.register_listener(l, Duration::from_secs(30), 32);
+    let client = tokio::net::UdpSocket::bind("127.0.0.1:0").await?;
+    Ok(LoopSrv { _server: server, udp_addr, tcp_addr, client, conn: None })
+}
+
+/// one request through the real server loop; every datagram / frame that comes back before the
+/// marker's response (plus a short grace period for stragglers) belongs to the request.
+/// `Err(what)`: the marker was not answered (server stuck / connection closed).
+fn serve_loop(rt: &tokio::runtime::Runtime, cfg: &Cfg, bytes: &[u8], tcp: bool) -> Result<Vec<Vec<u8>>, String> {
+    rt.block_on(async {
+        if cfg.loop_srv.borrow().is_none() {
+            let srv = start_loop(cfg).await.map_err(|e| format!("cannot start the loopback server: {e}"))?;
+            *cfg.loop_srv.borrow_mut() = Some(srv);
+        }
+        let mut guard = cfg.loop_srv.borrow_mut();
+        let srv = guard.as_mut().unwrap();
+        let mut out: Vec<Vec<u8>> = vec![];
+        let mark = marker();
+        let is_mark = |m: &[u8]| m.len() >= 2 && u16::from_be_bytes([m[0], m[1]]) == MARK_ID;
+        let limit = Duration::from_secs(5);
+        if !tcp {
+            srv.client.send_to(bytes, srv.udp_addr).await.map_err(|e| format!("client send: {e}"))?;
+            srv.client.send_to(&mark, srv.udp_addr).await.map_err(|e| format!("client send: {e}"))?;
+            let mut buf = vec![0u8; 65536];
+            let mut seen_mark = false;
+            loop {
+                let wait = if seen_mark { Duration::from_millis(4) } else { limit };
+                match tokio::time::timeout(wait, srv.client.recv_from(&mut buf)).await {
+                    Ok(Ok((n, _))) => {
+                        if is_mark(&buf[..n]) {
+                            seen_mark = true;
+                        } else {
+                            out.push(buf[..n].to_vec());
+                        }
+                    }
+                    Ok(Err(e)) => return Err(format!("client recv: {e}")),
+                    Err(_) if seen_mark => break,
+                    Err(_) => return Err("the server did not answer the marker request within 5 s (it no longer serves)".into()),
+                }
+            }
+        } else {
+            if srv.conn.is_none() {
+                srv.conn = Some(tokio::net::TcpStream::connect(srv.tcp_addr).await.map_err(|e| format!("connect: {e}"))?);
+            }
+            let c = srv.conn.as_mut().unwrap();
+            let mut w = vec![];
+            for m in [bytes, &mark[..]] {
+                w.extend((m.len() as u16).to_be_bytes());
+                w.extend(m);
+            }
+            let io = async {
+                c.write_all(&w).await?;
+                loop {
+                    let mut l = [0u8; 2];
+                    c.read_exact(&mut l).await?;
+                    let mut m = vec![0u8; u16::from_be_bytes(l) as usize];
+                    c.read_exact(&mut m).await?;
+                    if is_mark(&m) {
+                        return Ok::<(), io::Error>(());
+                    }
+                    out.push(m);
+                }
+            };
+            match tokio::time::timeout(limit, io).await {
+                Ok(Ok(())) => {}
+                Ok(Err(e)) => {
+                    srv.conn = None;
+                    return Err(format!("the TCP connection ended before the marker was answered: {e}"));
+                }
+                Err(_) => {
+                    srv.conn = None;
+                    return Err("the server did not answer the marker request within 5 s (it no longer serves)".into());
+                }
+            }
+        }
+        Ok(out)
+    })
+}
+
+// ---- the real `UdpStream` on a scripted socket -------------------------------------------------
+
+#[derive(Clone, Copy, PartialEq, Debug)]
+enum SendRes {
+    Ok,
+    Err,
+    /// fails, and fails again for the same message (EMSGSIZE-like)
+    Sticky,
+    Wait,
+}
+
+enum RecvItem {
+    D(SocketAddr, Vec<u8>),
+    Pause,
+    Err,
+}
+
+#[derive(Default)]
+struct SockState {
+    recv: VecDeque<RecvItem>,
+    send: VecDeque<SendRes>,
+    /// every `poll_send_to` that returned `Ready`: payload, target, succeeded
+    attempts: Vec<(Vec<u8>, SocketAddr, bool)>,
+    sticky: Vec<(Vec<u8>, SocketAddr)>,
+    /// the socket asked to be polled again
+    woke: bool,
+    calls: usize,
+}
+
+struct ScriptSock(Arc<Mutex<SockState>>);
+
+impl DnsUdpSocket for ScriptSock {
+    type Time = TokioTime;
+    fn poll_recv_from(&self, cx: &mut std::task::Context<'_>, buf: &mut [u8]) -> Poll<io::Result<(usize, SocketAddr)>> {
+        let mut st = self.0.lock().unwrap();
+        st.calls += 1;
+        match st.recv.pop_front() {
+            Some(RecvItem::D(src, d)) => {
+                let n = d.len().min(buf.len());
+                buf[..n].copy_from_slice(&d[..n]);
+                Poll::Ready(Ok((n, src)))
+            }
+            Some(RecvItem::Pause) => {
+                st.woke = true;
+                cx.waker().wake_by_ref();
+                Poll::Pending
+            }
+            Some(RecvItem::Err) => Poll::Ready(Err(io::Error::new(io::ErrorKind::ConnectionReset, "scripted receive error"))),
+            None => Poll::Pending,
+        }
+    }
+    fn poll_send_to(&self, cx: &mut std::task::Context<'_>, buf: &[u8], target: SocketAddr) -> Poll<io::Result<usize>> {
+        let mut st = self.0.lock().unwrap();
+        st.calls += 1;
+        if st.sticky.iter().any(|(b_, t)| b_ == buf && *t == target) {
+            st.attempts.push((buf.to_vec(), target, false));
+            return Poll::Ready(Err(io::Error::new(io::ErrorKind::Other, "scripted EMSGSIZE")));
+        }
+        match st.send.pop_front().unwrap_or(SendRes::Ok) {
+            SendRes::Ok => {
+                st.attempts.push((buf.to_vec(), target, true));
+                Poll::Ready(Ok(buf.len()))
+            }
+            SendRes::Err => {
+                st.attempts.push((buf.to_vec(), target, false));
+                Poll::Ready(Err(io::Error::new(io::ErrorKind::Other, "scripted send error")))
+            }
+            SendRes::Sticky => {
+                st.attempts.push((buf.to_vec(), target, false));
+                st.sticky.push((buf.to_vec(), target));
+                Poll::Ready(Err(io::Error::new(io::ErrorKind::Other, "scripted EMSGSIZE")))
+            }
+            SendRes::Wait => {
+                st.woke = true;
+                cx.waker().wake_by_ref();
+                Poll::Pending
+            }
+        }
+    }
+}
+
+#[derive(Clone, Default)]
+struct NoSpawn;
+impl Spawn for NoSpawn {
+    fn spawn_bg(&mut self, _future: impl Future<Output = ()> + Send + 'static) {}
+}
+
+#[derive(Clone)]
+struct ScriptProv;
+
+impl RuntimeProvider for ScriptProv {
+    type Handle = NoSpawn;
+    type Timer = TokioTime;
+    type Udp = ScriptSock;
+    type Tcp = AsyncIoTokioAsStd<tokio::net::TcpStream>;
+    fn create_handle(&self) -> Self::Handle {
+        NoSpawn
+    }
+    fn connect_tcp(&self, _server_addr: SocketAddr, _bind_addr: Option<SocketAddr>, _timeout: Option<Duration>) -> std::pin::Pin<Box<dyn Send + Future<Output = Result<Self::Tcp, io::Error>>>> {
+        Box::pin(async { Err(io::Error::new(io::ErrorKind::Unsupported, "no tcp in this script")) })
+    }
+    fn bind_udp(&self, _local_addr: SocketAddr, _server_addr: SocketAddr) -> std::pin::Pin<Box<dyn Send + Future<Output = Result<Self::Udp, io::Error>>>> {
+        Box::pin(async { Err(io::Error::new(io::ErrorKind::Unsupported, "scripted socket only")) })
+    }
+}
+
+/// `handle_udp`'s loop (stream.next → spawn handle_raw_request with the stream's handle re-addressed
+/// to the source; an `Err` item is logged and the loop goes on) around the real `UdpStream` on the
+/// scripted socket.  Returns the socket's record and whether the loop had to be stopped as livelocked.
+fn run_udp_script(rt: &tokio::runtime::Runtime, cfg: &Cfg, recv: Vec<RecvItem>, send: Vec<SendRes>) -> (Vec<(Vec<u8>, SocketAddr, bool)>, bool) {
+    let items = recv.len() + send.len();
+    let st = Arc::new(Mutex::new(SockState { recv: recv.into(), send: send.into(), ..Default::default() }));
+    let st2 = st.clone();
+    let catalog = cfg.catalog.clone();
+    let (deny, allow) = (cfg.deny.clone(), cfg.allow.clone());
+    let livelocked = rt.block_on(async move {
+        let (mut stream, handle) = UdpStream::<ScriptProv>::with_bound(ScriptSock(st2.clone()), ([127, 255, 255, 254], 0).into());
+        let mut tasks = tokio::task::JoinSet::new();
+        let mut idle_polls = 0;
+        let mut polls = 0usize;
+        let budget = 40 * (items + 10);
+        loop {
+            polls += 1;
+            if polls > budget {
+                return true;
+            }
+            st2.lock().unwrap().woke = false;
+            let calls_before = st2.lock().unwrap().calls;
+            let r = std::future::poll_fn(|cx| Poll::Ready(stream.poll_next_unpin(cx))).await;
+            match r {
+                Poll::Ready(Some(Ok(message))) => {
+                    idle_polls = 0;
+                    let (bytes, src) = message.into_parts();
+                    let h = handle.with_remote_addr(src);
+                    let (c, d, a) = (catalog.clone(), deny.clone(), allow.clone());
+                    tasks.spawn(async move { verif_handle_request(Shared(c), &d, &a, bytes, src, Protocol::Udp, h).await });
+                }
+                Poll::Ready(Some(Err(_))) => idle_polls = 0, // "error receiving message on udp_socket": continue
+                Poll::Ready(None) => return false,
+                Poll::Pending => {
+                    // let the request handlers run, then look again
+                    tokio::task::yield_now().await;
+                    while tasks.try_join_next().is_some() {}
+                    let s = st2.lock().unwrap();
+                    let progressed = s.woke || s.calls > calls_before + 1;
+                    drop(s);
+                    if progressed {
+                        idle_polls = 0;
+                    } else {
+                        idle_polls += 1;
+                        if idle_polls >= 3 && tasks.is_empty() {
+                            return false;
+                        }
+                    }
+                }
+            }
+        }
+    });
+    let attempts = std::mem::take(&mut st.lock().unwrap().attempts);
+    (attempts, livelocked)
 }
 
 // ------------------------------------------------------------------ the property's oracle (independent of the model)
@@ -853,10 +1142,127 @@ impl Runner {
                     rec.stat("skipped.unparsable-case");
                     return;
                 };
-                let protocol = if *proto == "t" { Protocol::Tcp } else { Protocol::Udp };
+                let protocol = if matches!(*proto, "t" | "T") { Protocol::Tcp } else { Protocol::Udp };
+                // `U` / `T`: through the real server loop on loopback — the source is 127.0.0.1
+                let ip = if matches!(*proto, "U" | "T") { IpAddr::V4(Ipv4Addr::LOCALHOST) } else { ip };
                 Self::request(&self.rt, cfg, proto, ip, protocol, &bytes, rec);
             }
+            ["udp", recv, send] => {
+                let Some(cfg) = self.cfg.as_ref() else {
+                    rec.stat("skipped.unparsable-case");
+                    return;
+                };
+                Self::udp_script(&self.rt, cfg, line, recv, send, rec);
+            }
             _ => rec.stat("skipped.unparsable-case"),
+        }
+    }
+
+    /// `udp <recv> <send>`: datagrams through the real `UdpStream` on a scripted socket
+    fn udp_script(rt: &tokio::runtime::Runtime, cfg: &Cfg, line: &str, recv: &str, send: &str, rec: &mut Recorder) {
+        let mut items = vec![];
+        let mut dgrams: Vec<(SocketAddr, Vec<u8>)> = vec![];
+        for it in recv.split(',') {
+            let f: Vec<&str> = it.split('/').collect();
+            match f.as_slice() {
+                ["d", src, port, h] => {
+                    let (Some(ip), Ok(port), Some(b_)) = (parse_ip(src), port.parse::<u16>(), unhex(h)) else {
+                        rec.stat("skipped.unparsable-case");
+                        return;
+                    };
+                    let a = SocketAddr::new(ip, port);
+                    dgrams.push((a, b_.clone()));
+                    items.push(RecvItem::D(a, b_));
+                }
+                ["p"] => items.push(RecvItem::Pause),
+                ["x"] => items.push(RecvItem::Err),
+                _ => {
+                    rec.stat("skipped.unparsable-case");
+                    return;
+                }
+            }
+        }
+        let script: Option<Vec<SendRes>> = if send == "-" {
+            Some(vec![])
+        } else {
+            send.chars()
+                .map(|c| match c {
+                    'o' => Some(SendRes::Ok),
+                    'e' => Some(SendRes::Err),
+                    'E' => Some(SendRes::Sticky),
+                    'w' => Some(SendRes::Wait),
+                    _ => None,
+                })
+                .collect()
+        };
+        let Some(script) = script else {
+            rec.stat("skipped.unparsable-case");
+            return;
+        };
+        *CURRENT.lock().unwrap() = Some((Instant::now(), line.to_string()));
+        cfg.log.lock().unwrap().clear();
+        let n_fail = script.iter().filter(|x| matches!(x, SendRes::Err | SendRes::Sticky)).count();
+        let n_wait = script.iter().filter(|x| matches!(x, SendRes::Wait)).count();
+        let r = catch(|| run_udp_script(rt, cfg, items, script));
+        cfg.log.lock().unwrap().clear();
+        let probe_src: SocketAddr = "127.0.0.1:5353".parse().unwrap();
+        let after = catch(|| serve(rt, cfg, &[], &[], &cfg.probe, probe_src, Protocol::Udp));
+        cfg.log.lock().unwrap().clear();
+        *CURRENT.lock().unwrap() = None;
+        rec.stat("udp.scripts");
+        rec.stat_n("udp.datagrams", dgrams.len() as u64);
+        rec.stat_n("udp.scripted-send-failures", n_fail as u64);
+        rec.stat_n("udp.scripted-send-pendings", n_wait as u64);
+        let mut fails: Vec<String> = vec![];
+        let out = match &r {
+            Err(p) => {
+                fails.push(format!("panic in the UDP stream / handler: {p}"));
+                format!("panic {p}")
+            }
+            Ok((attempts, livelocked)) => {
+                if *livelocked {
+                    fails.push("livelock: the stream kept returning without making progress (a message that cannot be sent is retried forever; no further datagram is read)".into());
+                }
+                // oracle: a response is owed to every datagram that is not a response and not shorter
+                // than a header; it is handed to the socket exactly once (whether that send succeeds
+                // or not), addressed to the datagram's source, with QR set and the datagram's id
+                let mut toks = vec![];
+                for (src, d) in &dgrams {
+                    let owed = d.len() >= 12 && d[2] & 0x80 == 0;
+                    let mine: Vec<&(Vec<u8>, SocketAddr, bool)> = attempts.iter().filter(|(_, t, _)| t == src).collect();
+                    if owed {
+                        if mine.len() != 1 {
+                            fails.push(format!("the response to the datagram from {src} was handed to the socket {} times (exactly once expected)", mine.len()));
+                        }
+                        for (p_, _, _) in &mine {
+                            if p_.len() < 12 || p_[..2] != d[..2] || p_[2] & 0x80 == 0 {
+                                fails.push(format!("what was sent to {src} is not a response with the request's id"));
+                            }
+                        }
+                    } else if !mine.is_empty() {
+                        fails.push(format!("{} datagram(s) sent to {src} in reply to a message that is itself a response or shorter than a header", mine.len()));
+                    }
+                    toks.push(match mine.as_slice() {
+                        [] => "-".to_string(),
+                        [(_, _, true)] => "a".to_string(),
+                        [(_, _, false)] => "f".to_string(),
+                        m => format!("!{}", m.len()),
+                    });
+                }
+                format!("udp {}", toks.join(","))
+            }
+        };
+        match &after {
+            Err(p) => fails.push(format!("server did not survive: panic on the following known-good query: {p}")),
+            Ok(a) if *a != cfg.baseline => fails.push("server did not survive: known-good query answered differently afterwards".into()),
+            _ => {}
+        }
+        let idx = rec.case(line.to_string(), out);
+        if n_fail > 0 {
+            rec.nontrivial(idx);
+        }
+        for f in fails {
+            rec.fail(idx, f, "");
         }
     }
 
@@ -908,7 +1314,49 @@ impl Runner {
         *CURRENT.lock().unwrap() = Some((Instant::now(), line.clone()));
 
         cfg.log.lock().unwrap().clear();
-        let got = catch(|| serve(rt, cfg, &cfg.deny, &cfg.allow, bytes, src, protocol));
+        let loop_mode = matches!(proto, "U" | "T");
+        let mut transport_fails: Vec<String> = vec![];
+        let mut unsendable = false;
+        let got = if !loop_mode {
+            catch(|| serve(rt, cfg, &cfg.deny, &cfg.allow, bytes, src, protocol))
+        } else {
+            // reference: what the handler produces for this request (hook, no transport) …
+            let reference = catch(|| serve(rt, cfg, &cfg.deny, &cfg.allow, bytes, src, protocol));
+            cfg.log.lock().unwrap().clear();
+            // … and what comes back through Server::register_socket / register_listener
+            let looped = catch(|| serve_loop(rt, cfg, bytes, proto == "T"));
+            match (reference, looped) {
+                (Ok(reference), Ok(Ok(v))) => {
+                    // a response that does not fit an IPv4 datagram cannot be sent: its own send fails
+                    unsendable = proto == "U" && reference.first().is_some_and(|r| r.len() > 65507);
+                    if unsendable {
+                        rec.stat("loop.unsendable-response");
+                        if !v.is_empty() {
+                            transport_fails.push(format!("{} response(s) arrived for a response of {} octets over UDP", v.len(), reference[0].len()));
+                        }
+                    } else if v != reference {
+                        transport_fails.push(format!(
+                            "through the server loop the request got {} response(s), the handler produced {} (or other bytes)",
+                            v.len(),
+                            reference.len()
+                        ));
+                    }
+                    Ok(v)
+                }
+                (_, Ok(Err(_))) if proto == "T" && bytes.is_empty() => {
+                    // a zero-length frame ends the connection (TcpStream reads 0 octets into an empty
+                    // buffer and takes it for EOF): the sender loses its own connection, nobody else
+                    // is affected — framing is C17's business
+                    rec.stat("note.tcp-zero-length-frame-closes-the-connection");
+                    Ok(vec![])
+                }
+                (_, Ok(Err(what))) => {
+                    transport_fails.push(what);
+                    Ok(vec![])
+                }
+                (Err(p), _) | (_, Err(p)) => Err(p),
+            }
+        };
         let log: Vec<String> = std::mem::take(&mut *cfg.log.lock().unwrap());
         // survival: the known-good probe must be answered exactly as before
         let probe_src: SocketAddr = "127.0.0.1:5353".parse().unwrap();
@@ -939,7 +1387,14 @@ impl Runner {
                             None => "?",
                         },
                         hex(&r.qsec),
-                        b(r.opt.is_some()),
+                        // a truncated response may have lost the OPT it owes to an EDNS request (it is
+                        // emitted last and skipped when the records filled the message): C03's business
+                        if r.opt.is_none() && r.tc && parsed.edns_version.is_some() {
+                            rec.stat("note.truncated-response-without-opt");
+                            "1"
+                        } else {
+                            b(r.opt.is_some())
+                        },
                         if log.is_empty() { "-".to_string() } else { log.join(",") },
                         // the real decoder's verdict on the rest of the message (the model decodes
                         // the request itself and prints its own)
@@ -954,6 +1409,8 @@ impl Runner {
                 }
             },
         };
+        // an unsendable response: the model (which has no transport) says `reply`, nothing can arrive
+        let out = if unsendable { rec.impl_only += 1; "~".to_string() } else { out };
         let idx = rec.case(line, out);
 
         // ---------------------------------------------------------------- oracle
@@ -961,6 +1418,9 @@ impl Runner {
         let mut fails: Vec<(String, &str)> = vec![];
         if let Err(p) = &got {
             fails.push((format!("panic while handling the request: {p}"), ""));
+        }
+        for w in transport_fails {
+            fails.push((format!("transport: {w}"), ""));
         }
         match &after {
             Err(p) => fails.push((format!("server did not survive: panic on the following known-good query: {p}"), "")),
@@ -977,7 +1437,7 @@ impl Runner {
                 if n != 0 {
                     fails.push((format!("{n} response(s) to a message that is itself a response or shorter than a header"), ""));
                 }
-            } else if n != 1 {
+            } else if n != 1 && !unsendable {
                 fails.push((format!("{n} responses to one request (exactly one expected)"), ""));
             }
         }
@@ -1873,10 +2333,85 @@ fn hand_configs() -> Vec<(Vec<ZSpec>, Vec<IpNet>, Vec<IpNet>)> {
     ]
 }
 
+/// a `udp` line: 2–7 datagrams from distinct sources (interleaved clients), pauses between bursts,
+/// a script of send results
+fn gen_udp_script(r: &mut Rng, zones: &[ZSpec], deny: &[IpNet], allow: &[IpNet], i: &mut usize) -> String {
+    let k = r.range(2, 7) as usize;
+    let mut items = vec![];
+    for j in 0..k {
+        let mut bytes = gen_request(r, zones, *i);
+        *i += 1;
+        if bytes.len() > 1500 {
+            bytes.truncate(1500);
+        }
+        let src = gen_src(r, deny, allow);
+        items.push(format!("d/{}/{}/{}", ip_tok(src), 4000 + j, hex(&bytes)));
+        match r.below(6) {
+            0 | 1 => items.push("p".into()),
+            2 if r.chance(1, 3) => items.push("x".into()),
+            _ => {}
+        }
+    }
+    let n = r.below(k as u64 + 4) as usize;
+    let script: String = (0..n).map(|_| *r.pick(&['o', 'o', 'o', 'e', 'e', 'E', 'w', 'w'])).collect();
+    format!("udp {} {}", items.join(","), if script.is_empty() { "-".to_string() } else { script })
+}
+
+/// hand-built transport block: a zone with an RRset that fits no datagram, the real server loop,
+/// and send-failure scripts on the real `UdpStream`
+fn transport_block(run: &mut Runner, rec: &mut Recorder) {
+    let zones = vec![
+        ZSpec { origin: name("big.test."), handlers: vec![HSpec::Mem { axfr: true }] },
+        ZSpec { origin: name("example.com."), handlers: vec![HSpec::Mem { axfr: false }] },
+    ];
+    run.exec(&format!("begin {} - -", zones_tok(&zones)), rec);
+    let q = |n: &str, t: u16, edns: Option<u16>, id: u16| -> Vec<u8> {
+        let mut m = header(id, 1, 0, 1, 0, 0, if edns.is_some() { 1 } else { 0 });
+        m.extend(wire_name(&labels_of(&name(n))));
+        m.extend(t.to_be_bytes());
+        m.extend([0, 1]);
+        if let Some(p) = edns {
+            m.extend(opt_rr(p, 0, 0, 0, &[]));
+        }
+        m
+    };
+    let l = |proto: &str, m: &[u8]| format!("req {proto} 4:2130706433 {} ? ? ?", hex(m));
+    // the same requests through the hook (u/t) and through the real loop (U/T)
+    for proto in ["u", "U", "t", "T"] {
+        run.exec(&l(proto, &q("www.example.com.", 1, None, 0x0101)), rec);
+        // ≈ 70 kB RRset: 512 / 4096 octets → truncated; 65535 over UDP → does not fit an IPv4
+        // datagram (the send fails, the response is dropped); over TCP it fits the 64 kB frame
+        run.exec(&l(proto, &q("huge.big.test.", 16, None, 0x0102)), rec);
+        run.exec(&l(proto, &q("huge.big.test.", 16, Some(4096), 0x0103)), rec);
+        run.exec(&l(proto, &q("huge.big.test.", 16, Some(65535), 0x0104)), rec);
+        run.exec(&l(proto, &q("huge.big.test.", 16, Some(65507), 0x0105)), rec);
+        // … and the server still answers the next client
+        run.exec(&l(proto, &q("www.example.com.", 1, Some(1232), 0x0106)), rec);
+        run.exec(&l(proto, &q("big.test.", 252, None, 0x0107)), rec);
+        run.exec(&l(proto, &[0x12, 0x34, 0x01]), rec);
+        run.exec(&l(proto, &[]), rec);
+        let mut resp = q("www.example.com.", 1, None, 0x0108);
+        resp[2] |= 0x80;
+        run.exec(&l(proto, &resp), rec);
+    }
+    // the real UdpStream on a scripted socket: three clients, the middle response cannot be sent
+    let d = |ip: &str, port: u16, m: &[u8]| format!("d/{}/{port}/{}", ip_tok(ip.parse().unwrap()), hex(m));
+    let (a, b_, c) = (q("www.example.com.", 1, None, 1), q("example.com.", 6, Some(1232), 2), q("nozone.invalid.", 1, None, 3));
+    for send in ["-", "oeo", "oEo", "E", "EEE", "wowewo", "wwwEwwo", "eee", "ow"] {
+        run.exec(&format!("udp {},{},{} {send}", d("192.0.2.1", 4001, &a), d("192.0.2.2", 4002, &b_), d("2001:db8::3", 4003, &c)), rec);
+        run.exec(&format!("udp {},p,{},x,{},p {send}", d("192.0.2.1", 4001, &a), d("192.0.2.2", 4002, &b_), d("2001:db8::3", 4003, &c)), rec);
+    }
+    // datagrams that are owed nothing, between ones that are
+    let mut resp = a.clone();
+    resp[2] |= 0x80;
+    run.exec(&format!("udp {},{},{},{} Eo", d("192.0.2.1", 4001, &a), d("192.0.2.9", 4009, &resp), d("192.0.2.8", 4008, &[1, 2, 3]), d("192.0.2.2", 4002, &b_)), rec);
+    run.exec("end", rec);
+}
+
 pub fn run(o: &Opts, rec: &mut Recorder) {
     rec.rule = "raw request byte strings (valid queries/updates/notifies of every opcode, EDNS versions, QR=1, truncations at every length, count edits, bit flips, garbage tails, compressed questions, random bytes) × catalogs (nested/sibling/root/relative-origin zones, in-memory and scripted chained handlers) × allow/deny sets × UDP/TCP; a case is non-trivial when the server sent a response; distinct by case line (configuration lines excluded)".into();
     start_watchdog();
-    let rt = tokio::runtime::Builder::new_current_thread().enable_time().build().expect("runtime");
+    let rt = tokio::runtime::Builder::new_current_thread().enable_all().build().expect("runtime");
     let mut run = Runner { rt, cfg: None };
     for l in o.pre_lines.clone() {
         run.exec(&l, rec);
@@ -1922,6 +2457,7 @@ pub fn run(o: &Opts, rec: &mut Recorder) {
         }
         run.exec("end", rec);
     }
+    transport_block(&mut run, rec);
     let blocks = o.n(500, 15000);
     let per_block = 30;
     let hand = hand_configs();
@@ -1935,12 +2471,22 @@ pub fn run(o: &Opts, rec: &mut Recorder) {
             (z, d, a)
         };
         run.exec(&format!("begin {} {} {}", zones_tok(&zones), nets_tok(&deny), nets_tok(&allow)), rec);
+        // one block in four also runs through the transports under the handler
+        let transports = bi % 4 == 1;
         for _ in 0..per_block {
             let bytes = gen_request(&mut r, &zones, i);
             i += 1;
             let src = gen_src(&mut r, &deny, &allow);
-            let proto = if r.chance(1, 3) { "t" } else { "u" };
+            let mut proto = if r.chance(1, 3) { "t" } else { "u" };
+            if transports && r.chance(1, 5) && bytes.len() < 60000 && !(bytes.len() >= 2 && bytes[..2] == MARK_ID.to_be_bytes()) {
+                // through Server::register_socket / register_listener on loopback
+                proto = if proto == "t" { "T" } else { "U" };
+            }
             run.exec(&format!("req {proto} {} {} ? ? ?", ip_tok(src), hex(&bytes)), rec);
+            if transports && r.chance(1, 6) {
+                let l = gen_udp_script(&mut r, &zones, &deny, &allow, &mut i);
+                run.exec(&l, rec);
+            }
         }
         run.exec("end", rec);
     }
